@@ -22,7 +22,8 @@ IkmLens  == {0, 31, 32, 33, 64, 1000}
 InfoLens == {NoneLen, 0, 1, 255, 256, 65535, 65536}
 DstLens  == {NoneLen, 1, 16, 255, 256}
 MsgLens  == {0, 1, 32, 255, 256, 257, 65535}
-ApiIds   == {"plain", "blind", "blindgen", "none", "empty", "custom", "custom2"}
+ApiIds   == {"plain", "blind", "blindgen", "none", "empty", "custom", "custom2",
+             "long236", "long237b", "long237c", "long300x", "long300y"}     \* long ids agreeing on a long prefix
 Counts   == {0, 1, 2, 3, 16, 33, 64}
 
 \* ---- the deterministic operations, abstractly: a result is a function of the arguments
